@@ -12,12 +12,16 @@
 //!   c06.br_normalize  BricksDomain::normalize: gamma(normalize(x)) == gamma(x) (both inclusions), and it returns
 //!   c06.br_widen      BricksDomain::widen: gamma(a) u gamma(b) <= gamma(a.widen(b))
 //!   c06.br_merge      BricksDomain::merge: gamma(a) u gamma(b) <= gamma(a.merge(b)), and it returns
+//!   c06.br_loop       the fixpoint iteration of a string-building loop, through the public constructors only:
+//!                     x = from(p); repeat n times { x = x.merge(&x.append_string_domain(&from(s))) }; p s^k stays represented
 //!
 //! The concretisations are written from the module documentation and Costantini et al., "Static Analysis of String
 //! Values": CI  Value(certain, possible) = { s | certain <= chars(s) <= possible };  brick [S]^{min,max} = all
 //! concatenations of k strings of S with min <= k <= max; a brick list = concatenation of one member per brick; Top = all.
-//! A panic of the real function is reported separately (`panics`), a call that does not return within the time limit as
-//! a disagreement of kind "no result" (`hangs`).
+//! `disagreements` counts wrong results only.  A panic of the real function (`panics`: Top operands of widen / normalize, u32
+//! overflow in rule 4 in debug builds) and a call that does not return within the time limit (`hangs`: normalize / merge do not
+//! terminate on some inputs, see the findings of unit `bricks`) are counted separately; `replay` of a hanging input answers
+//! `agrees: false`.
 use crate::util::Rng;
 use cwe_checker_lib::abstract_domain::{
     AbstractDomain, BrickDomain, BricksDomain, CharacterInclusionDomain, CharacterSet, DomainInsertion,
@@ -207,7 +211,12 @@ pub fn search(twin: &str, _case: Option<&str>, seed: u64) -> Option<Value> {
         ci_sweep(twin).3
     } else {
         let r = br_sweep(twin, seed);
-        r.first.or(r.first_hang)
+        // a wrong result first; a call that does not return is the class recorded in known_findings.txt (normalize does not
+        // terminate): reported with `known_only` so that it is printed, not counted as a new hit
+        r.first.or(r.first_hang.map(|mut h| {
+            h["known_only"] = json!(true);
+            h
+        }))
     }
 }
 
@@ -243,7 +252,7 @@ pub fn sweep(twin: &str, seed: u64) -> Value {
         json!({"cases": cases, "evaluations": cases, "disagreements": bad, "panics": panics, "first": first})
     } else {
         let r = br_sweep(twin, seed);
-        json!({"cases": r.cases, "evaluations": r.cases, "disagreements": r.bad + r.hangs, "wrong_results": r.bad, "panics": r.panics, "hangs": r.hangs, "skipped_after_hangs": r.skipped,
+        json!({"cases": r.cases, "evaluations": r.cases, "disagreements": r.bad, "wrong_results": r.bad, "panics": r.panics, "hangs": r.hangs, "skipped_after_hangs": r.skipped,
             "first": r.first, "first_hang": r.first_hang, "first_panic": r.first_panic})
     }
 }
@@ -258,7 +267,7 @@ const BR_MAX_LEN: usize = 6;
 /// time limit for one call of the real function
 const BR_LIMIT_MS: u64 = 1000;
 /// after this many calls that did not return the sweep stops (the rest is counted as skipped)
-const BR_MAX_HANGS: u64 = 40;
+const BR_MAX_HANGS: u64 = 60;
 fn br_max_hangs() -> u64 {
     std::env::var("C06_MAX_HANGS").ok().and_then(|x| x.parse().ok()).unwrap_or(BR_MAX_HANGS)
 }
@@ -509,6 +518,30 @@ fn br_check(twin: &str, input: &Value) -> BrVerdict {
                 Outcome::Hung => BrVerdict::Hung(json!({"input": input, "expected": "a brick list", "got": "no result within the time limit"})),
             }
         }
+        "c06.br_loop" => {
+            let prefix = input["prefix"].as_str().unwrap_or("").to_string();
+            let suffix = input["suffix"].as_str().unwrap_or("").to_string();
+            let rounds = input["rounds"].as_u64().unwrap_or(0) as usize;
+            let mut x = BricksDomain::from(prefix.clone());
+            for round in 1..=rounds {
+                let (x1, sfx) = (x.clone(), suffix.clone());
+                match run_limited(BR_LIMIT_MS, move || x1.merge(&x1.append_string_domain(&BricksDomain::from(sfx)))) {
+                    Outcome::Done(r) => x = r,
+                    Outcome::Panicked => return BrVerdict::Panicked(json!({"input": input, "expected": "a merged value", "got": format!("panic in round {}", round)})),
+                    Outcome::Hung => return BrVerdict::Hung(json!({"input": input, "expected": "a merged value", "got": format!("no result within the time limit in round {}", round)})),
+                }
+                // every string  prefix suffix^k, k <= round,  was a member of an operand of one of the merges so far
+                let m = model_bricks(&x);
+                let mut w = prefix.clone();
+                for k in 0..=round {
+                    if w.len() <= 40 && !bricks_gamma(&m, &w) {
+                        return BrVerdict::Disagrees(json!({"input": input, "expected": format!("after round {} the string {:?} (prefix + {} x suffix) is represented", round, w, k), "got": mbricks_json(&m)}));
+                    }
+                    w.push_str(&suffix);
+                }
+            }
+            BrVerdict::Agrees
+        }
         "c06.br_normalize" => {
             let x = match mbricks_from(&input["x"]) {
                 Some(x) => x,
@@ -579,6 +612,15 @@ fn br_inputs(twin: &str, seed: u64) -> Vec<Value> {
                 out.push(json!({"x": mbricks_json(&br_random_list(&mut rng, i % 2 == 0, 4))}));
             }
         }
+        "c06.br_loop" => {
+            for prefix in ["", "a", "ab"] {
+                for suffix in ["", "a", "b", "ab"] {
+                    for rounds in [1u64, 2, 3, 12] {
+                        out.push(json!({"prefix": prefix, "suffix": suffix, "rounds": rounds}));
+                    }
+                }
+            }
+        }
         "c06.br_append" | "c06.br_widen" | "c06.br_merge" => {
             if twin == "c06.br_merge" {
                 // values built with the crate's own constructors only: from(s1).append(from(s2)) against from(s3) and from(s3).append(from(s4))
@@ -618,12 +660,39 @@ fn br_inputs(twin: &str, seed: u64) -> Vec<Value> {
                 } else {
                     br_random_list(&mut rng, normalish, 3)
                 };
+                if twin == "c06.br_widen" && (a.is_none() || b.is_none()) {
+                    // widen panics on a Top operand (merge tests for it before)
+                    continue;
+                }
                 out.push(json!({"a": mbricks_json(&a), "b": mbricks_json(&b)}));
             }
         }
         _ => {}
     }
-    out
+    // inputs on which normalize is likely not to return (a brick with 1 <= min < max, or neighbours with the same strings that
+    // rule 4 would merge into such a brick: see the findings of unit `bricks`) go last: a call that does not return costs
+    // BR_LIMIT_MS and the sweep stops after BR_MAX_HANGS of them
+    let (late, mut early): (Vec<Value>, Vec<Value>) = out.into_iter().partition(br_hang_prone);
+    early.extend(late);
+    early
+}
+
+fn br_hang_prone(input: &Value) -> bool {
+    if input.get("prefix").is_some() {
+        return false;
+    }
+    ["a", "b", "x"].iter().any(|k| match mbricks_from(&input[*k]) {
+        Some(Some(l)) => {
+            l.iter().any(|b| matches!(b, MBrick::Val { min, max, .. } if *min >= 1 && *max > *min))
+                || l.windows(2).any(|p| match (&p[0], &p[1]) {
+                    (MBrick::Val { seq: s1, min: m1, max: x1 }, MBrick::Val { seq: s2, min: m2, max: x2 }) => {
+                        s1 == s2 && (*m1 as u64 + *m2 as u64) >= 1 && (*x1 as u64 + *x2 as u64) > (*m1 as u64 + *m2 as u64) && (*m1, *x1, *m2, *x2) != (1, 1, 1, 1)
+                    }
+                    _ => false,
+                })
+        }
+        _ => false,
+    })
 }
 
 /// child side of a sweep (`sweep <twin>@child@<start>`): checks the inputs from index `start` on, one line `<index> <verdict>` each
